@@ -25,6 +25,8 @@ From Verif.Note Require Import Note.
 From Verif.Base Require Import Wire.
 From Verif.Client Require Import Seq SeqProofs SeqProofsTile SeqProofsSafe SeqProofsTop SeqProofsInst.
 From Verif.Client Require DispatchClient.
+From Verif.Client Require Import SeqProofsHonest.
+From Verif.Tlog Require ProofsTree ProofsStore Spec6962 Sha TileProofsInst.
 
 (* lookup_safe: an Ok result is exactly the go.sum lines (prefix filter over the lines of the
    response) of a response whose record hash is authenticated, at the stored-hash index of its id,
@@ -165,13 +167,46 @@ Theorem C01_lookup_memo_no_ops :
 Proof. exact lookup_memo_no_ops. Qed.
 Print Assumptions C01_lookup_memo_no_ops.
 
-(* NOT PROVED (target of DESIGN.md): lookup_honest_complete —
-     for an honest world built from any log L (remote = the server's lookup responses and tiles for
-     a size N <= length L, cache = any subset of the honest tiles and lookup files, config = the key
-     and an earlier honest head), any tile height 1..30 and any record (path, vers) of L below N:
-       lookup w c path vers = (LOk (the server's lines for (path, vers)), _, _, _)
-     and no Security event occurs (honest growth never triggers Security).
-   It needs C10 read_hashes_complete, C07 sign_open_roundtrip, C09 tree_hash_is_MTH and the codec
-   round trips composed through the stateful tile reader; none of the composition is done.  The
-   clause is decided at correspondence/oracle strength only: oracle "honest-succeeds" (every honest
-   scenario returns exactly the server's lines) and "honest-no-security" of harness/props/c01.go. *)
+(* lookup_honest_complete.  The honest world is described by a range-hash function T (T lo hi = the
+   RFC 6962 hash of the records [lo, hi); C01_honest_T_exists shows ProofsStore.range_hash of any
+   log is one) up to the largest size N the server signs, and by HonestWorld (SeqProofsHonest.v):
+     - every tile the tile hash reader can plan for a tree of size m <= N is served with its honest
+       content on every read; cache files named like such a tile (or its full version) hold the
+       honest content; cached and served lookup responses are honest records (a record id < n with
+       leaf hash T id (id+1), followed by a note that opens to the tree (n, T 0 n), n <= N);
+     - the stored head is empty or such a note; nobody else writes the configuration; the key file
+       is the configured key.
+   A GoodClient is a fresh client of tile height h (1..30), or an initialised one whose head is
+   honest and whose memo tables hold honest tiles / honest records / "not found".
+   Then a lookup never fails with a security error, emits no Security event, keeps world and
+   client honest, and — for a module version that escapes and is not memoised — returns exactly
+   the go.sum lines of an honest record (the cached file, else the server's response), or
+   "not found" when the server has no such record.  Composition of C10 read_hashes_complete and
+   make_plan_tiles_valid, tile_path_bijection, C09 (Blocks / fold of the range hashes) and the
+   model's control flow; no assumption on the hash function. *)
+Theorem C01_lookup_honest_complete :
+  forall sha leaf_hash node_hash V esc_path esc_vers skip (T : Z -> Z -> hash) N h,
+  ProofsTree.T_splits node_hash T N -> (forall lo hi, length (T lo hi) = 32%nat) ->
+  0 < N <= 2 ^ 62 -> 1 <= h <= 30 ->
+  forall vs name w c path vers r evs w' c',
+  HonestWorld sha leaf_hash V T N h vs name w ->
+  GoodClient leaf_hash V T N h vs name c ->
+  lookup sha leaf_hash node_hash V esc_path esc_vers skip w c path vers = (r, evs, w', c') ->
+  HonestWorld sha leaf_hash V T N h vs name w' /\
+  GoodClient leaf_hash V T N h vs name c' /\
+  Forall nosec evs /\ r <> LErr ESecurity /\
+  (forall ep ev, skip path = false -> esc_path path = Some ep ->
+     esc_vers (trim_suffix vers go_mod_suffix) = Some ev ->
+     (c_init c = None \/ rec_find (name ++ B "/lookup/" ++ ep ++ [64] ++ ev) (c_records c) = None) ->
+     (exists data, r = LOk (result_lines path vers data) /\ honest_record leaf_hash V T N vs data) \/
+     (r = LErr ERemote /\ exists k, w_remote w k (B "/lookup/" ++ ep ++ [64] ++ ev) = None)).
+Proof. exact lookup_honest. Qed.
+Print Assumptions C01_lookup_honest_complete.
+
+(* the hypotheses on T are satisfiable: the range hashes of any log, with SHA-256 *)
+Example C01_honest_T_exists : forall recs : list str,
+  ProofsTree.T_splits Sha.node_hash_sha (TileProofsInst.sha_range recs) (Spec6962.zlen recs) /\
+  (forall lo hi, length (TileProofsInst.sha_range recs lo hi) = 32%nat).
+Proof.
+  intros recs. split; [apply ProofsStore.range_hash_splits | apply TileProofsInst.sha_range_length].
+Qed.
